@@ -324,6 +324,42 @@ func c03BufferReuse(c *fw.Ctx) {
 	}
 }
 
+// c03FaultyDetector: a detector registered with Extend that panics on some inputs. If the
+// library lets the panic reach the caller, nothing is asserted. If it returns a result, that
+// result must be the first-match walk of the tree in which the faulty detector does not
+// accept the input (a walk that simply stops there skips every later sibling).
+func c03FaultyDetector(c *fw.Ctx) {
+	mimetype.VerifResetTree()
+	defer mimetype.VerifResetTree()
+	ref := lib.Snapshot()                                                                                                              // the tree without the faulty format
+	mimetype.Extend(func(raw []byte, _ uint32) bool { return raw[2] == 0xFA && raw[3] == 0x17 }, "application/x-verif-faulty", ".vfy") // panics below 4 bytes
+	if lk := mimetype.Lookup("text/plain"); lk != nil {
+		lk.Extend(func(raw []byte, _ uint32) bool { return raw[len(raw)-5] == 'Z' }, "text/x-verif-faulty", ".vft") // panics below 5 bytes
+	}
+	for _, x := range [][]byte{{}, []byte("PK"), []byte("a"), []byte("ab"), []byte("abc"), []byte("{}"), []byte("<a>"), []byte("a,b"), []byte("\x89PN"), []byte("%PD"), []byte("GIF")} {
+		for _, entry := range []string{"Detect", "DetectReader"} {
+			var ch lib.Chain
+			returned := false
+			func() {
+				defer func() { recover() }()
+				m, _ := detect(x, 3072, entry)
+				ch, returned = lib.ChainOf(m), true
+			}()
+			c.Eval(1)
+			c.Count("detections_with_a_faulty_extension", 1)
+			if !returned {
+				c.Count("panics_passed_on_to_the_caller", 1)
+				continue
+			}
+			path := ref.Walk(x, 3072)
+			want := ref.ChainOfID(path[len(path)-1])
+			if ch.Bare() != want.Bare() {
+				c.Violate("walk-mismatch", fw.InputKey(x, 3072, entry+"/faulty-extension"), fmt.Sprintf("a detector registered with Extend panics on this input; the library returned %s instead of passing the panic on; the first-match walk without that detector gives %s", ch, want), c03Payload{In: x, Entry: "buffer-reuse", InQ: fw.Quote(x, 40)})
+			}
+		}
+	}
+}
+
 // c03LimitSetter hands out its bytes and calls SetLimit while doing so.
 type c03LimitSetter struct {
 	b   []byte
@@ -585,6 +621,7 @@ func c03Run(c *fw.Ctx, b fw.Batch) {
 	}
 	if b.Kind == "buffer-reuse" {
 		c03BufferReuse(c)
+		c03FaultyDetector(c)
 		return
 	}
 	r := c.Rand
@@ -597,6 +634,10 @@ func c03Run(c *fw.Ctx, b fw.Batch) {
 			ops = genHistory(r, base, 1+r.Intn(10), seeds, false)
 		}
 		st := c03Setup(ops)
+		if h%2 == 1 {
+			// Extend on detection results: the walk must still be the walk of the registered tree
+			extendOnResults(r, seeds, 1+r.Intn(4))
+		}
 		corpus := append([][]byte{}, seeds...)
 		seen := map[string]bool{}
 		iters := 6000
